@@ -235,6 +235,10 @@ func c7Program(t *c7Node, ctx int) *progCase {
 		return &progCase{P: &Program{Rules: []*Rule{init, {Kind: "BEGIN", Body: Blk(tree, Pr(S("end")))}, end}}}
 	case 1:
 		return &progCase{P: &Program{Rules: []*Rule{init, {Body: Blk(tree, Pr(S("rend"), V("$")))}, {Body: Blk(Pr(S("second rule"), V("$")))}, end}}, Files: in12}
+	case 3:
+		// roots that are not arrays (a stream of an object, a number and a string): the rules run once per root
+		return &progCase{P: &Program{Rules: []*Rule{init, {Body: Blk(tree, Pr(S("rend"), V("$")))}, {Body: Blk(Pr(S("second rule"), V("$")))}, {Kind: "ENDFILE", Body: Blk(Pr(S("endfile"), V("$")))}, end}},
+			Files: []inFile{{"in.json", "{\"a\":1} 5\n\"s\""}}}
 	}
 	f := &Func{Name: "f", Params: []string{"p"}, Body: Blk(tree, Pr(S("fend")), &Return{N("7")})}
 	return &progCase{P: &Program{Funcs: []*Func{f}, Rules: []*Rule{init, {Body: Blk(Pr(S("ret"), CallE(V("f"), V("$"))), Pr(S("rend")))}, {Body: Blk(Pr(S("second rule"), V("$")))}, end}}, Files: in12}
@@ -328,13 +332,13 @@ func init() {
 	fw.Register(&fw.Prop{
 		ID: "C07",
 		Rule: "all statement trees with <= N nodes over 25 constructs (trace print, if / if-else with true, false and data-driven conditions, while with a counting and a false condition, three-clause for, for-in over array / object / string with one and two variables and over the three empty iterables, two-statement block, break, continue, return, next, exit), " +
-			"each placed in a BEGIN rule, in the first of two pattern rules over [1,2], and in a function called from such a rule; trees that use break/continue outside a loop or return outside a function are left out (they are syntax errors, C11); oracle: the model's exact output trace (DESIGN.md 3.11-3.13); " +
+			"each placed in a BEGIN rule, in the first of two pattern rules over [1,2], in a function called (inside a print list) from such a rule, and in the first of two pattern rules over a stream of an object, a number and a string; trees that use break/continue outside a loop or return outside a function are left out (they are syntax errors, C11); oracle: the model's exact output trace (DESIGN.md 3.11-3.13); " +
 			"a state is a (enclosing construct > construct) pair that was executed; non-trivial = such pairs; plus fixed programs for 12-key objects, unbraced dangling else, and 14 for-in loops whose body replaces an element not yet visited (directly, through an alias, in a callee, in the input document) with break / continue driven by the value that arrives",
-		Plan:        func(t fw.Tier) int { return c7NKinds * 3 },
-		Bound:       func(t fw.Tier) string { return fmt.Sprintf("all valid trees with <= %d nodes x 3 placements", size(t)) },
+		Plan:        func(t fw.Tier) int { return c7NKinds * 4 },
+		Bound:       func(t fw.Tier) string { return fmt.Sprintf("all valid trees with <= %d nodes x 4 placements", size(t)) },
 		Assumptions: []string{"reference interpreter mc/refsem (statements, calls, rule schedule)", "object key order probed from the implementation once per key sequence (3.11)"},
 		Run: func(c *fw.Ctx, u int) {
-			root, ctx := u/3, u%3
+			root, ctx := u/4, u%4
 			for n := 1; n <= size(c.Tier); n++ {
 				if c.Expired() {
 					return
@@ -346,7 +350,7 @@ func init() {
 					c.Do(func() any { return c07Spec{Tree: t.encode(), Ctx: ctx, Text: c7Program(t, ctx).source()} }, func() *fw.Violation {
 						v := c07Check(c, t, ctx)
 						if v == nil && n <= 3 {
-							c7States(c, t, []string{"BEGIN", "pattern rule", "function"}[ctx])
+							c7States(c, t, []string{"BEGIN", "pattern rule", "function", "pattern rule over non-array roots"}[ctx])
 						}
 						return v
 					})
